@@ -1,6 +1,7 @@
 import Driver.Util
 import MmtkModel.Model.SpaceDescriptor
 import Driver.Layout.Desc
+import Driver.Layout.CSM
 /-! package `Layout` (see CONVENTIONS.md): register components in `step`.
 `cfg` lines this package cares about may be matched here too (they must answer "ok");
 every package sees every `cfg` line. -/
@@ -11,11 +12,13 @@ structure St where
   debug : Bool := true
   /-- the process-global `VMLayout` (`cfg layout 32|64`) -/
   layout : Mmtk.Layout.VMLayout := Mmtk.Layout.layout64
+  csm : CSM.St := {}
 
 /-- `none` = not a component of this package. -/
 def step (st : St) (toks : List String) : Option (St × String) :=
   match toks with
   | "desc" :: args => some (st, Desc.run st.layout st.debug args)
+  | "csm" :: args => let (c, o) := CSM.step st.csm args; some ({ st with csm := c }, o)
   | _ => none
 
 /-- `cfg` lines are broadcast to every package. -/
